@@ -488,6 +488,57 @@ fn part_headers(c: &Child, only_chunk: Option<&str>) -> Tally {
     tl
 }
 
+/// part "pools": every designation table of length 1..=L over an alphabet of ASCII, NUL and the bytes of 2-, 3- and 4-byte
+/// UTF-8 characters (also in orders that are not UTF-8), with the designation index at every position of the table and one
+/// past it; v1 files and v2 files (table in the 64-bit block); plus the same tables as TZ-string footers
+fn part_pools(c: &Child, thorough: bool, only_chunk: Option<&str>) -> Tally {
+    let alpha: [u8; 9] = [b'A', b'-', 0, 0xC3, 0xA9, 0xE2, 0x82, 0xF0, 0x9F];
+    let maxlen: usize = if thorough { 6 } else { 5 };
+    let small = Block { trans: vec![], types: vec![(0, 0, 0)], chars: b"UTC\0".to_vec(), ..Default::default() };
+    let chunks: Vec<usize> = (0..alpha.len()).collect();
+    chunks
+        .par_iter()
+        .map(|&first| {
+            let id = format!("pools:{first}");
+            let mut tl = Tally::default();
+            if only_chunk.map_or(false, |o| o != id) {
+                return tl;
+            }
+            c.enter(&id);
+            for len in 1..=maxlen {
+                let n = alpha.len().pow(len as u32 - 1);
+                for code in 0..n {
+                    let mut chars = vec![alpha[first]];
+                    let mut x = code;
+                    for _ in 1..len {
+                        chars.push(alpha[x % alpha.len()]);
+                        x /= alpha.len();
+                    }
+                    for idx in 0..=len {
+                        let b = Block { trans: vec![(0, 0)], types: vec![(3600, 0, idx as u8)], chars: chars.clone(), ..Default::default() };
+                        let f1 = mtzif::file(0, &b, None, None);
+                        try_tzif(c, &f1, "pools", &|| json!({"designations": chars, "index": idx, "version": 1}), &mut tl);
+                        if idx % 2 == 0 {
+                            let f2 = mtzif::file(b'2', &small, Some(&b), Some(b""));
+                            try_tzif(c, &f2, "pools", &|| json!({"designations": chars, "index": idx, "version": 2}), &mut tl);
+                        }
+                    }
+                    // the same bytes where a TZ string is expected
+                    if len <= 4 {
+                        let mut foot = b"AAA".to_vec();
+                        foot.extend_from_slice(&chars);
+                        foot.extend_from_slice(b"3");
+                        let f3 = mtzif::file(b'3', &small, Some(&small), Some(&foot));
+                        try_tzif(c, &f3, "pools", &|| json!({"footer": foot}), &mut tl);
+                    }
+                }
+            }
+            c.leave(&id);
+            tl
+        })
+        .reduce(Tally::default, Tally::merge)
+}
+
 /// part "api": products of boundary values through every public constructor, query, projection, getter and Display
 fn part_api(c: &Child, only_chunk: Option<&str>) -> Tally {
     let i64s: Vec<i64> = vec![i64::MIN, i64::MIN + 1, crate::cal::MIN_UNIX_TIME - 1, crate::cal::MIN_UNIX_TIME, -1, 0, 1, 951868800, crate::cal::MAX_UNIX_TIME, crate::cal::MAX_UNIX_TIME + 1, i64::MAX - 1, i64::MAX];
@@ -691,7 +742,7 @@ fn part_api(c: &Child, only_chunk: Option<&str>) -> Tally {
 
 // ------------------------------------------------------------------------------------------ child / parent
 
-const PARTS: [&str; 5] = ["strings", "edits", "mutate", "headers", "api"];
+const PARTS: [&str; 6] = ["strings", "edits", "mutate", "headers", "pools", "api"];
 
 fn run_part(c: &Child, part: &str, thorough: bool, only_chunk: Option<&str>) -> Tally {
     match part {
@@ -699,6 +750,7 @@ fn run_part(c: &Child, part: &str, thorough: bool, only_chunk: Option<&str>) -> 
         "edits" => part_edits(c, only_chunk),
         "mutate" => part_mutate(c, thorough, only_chunk),
         "headers" => part_headers(c, only_chunk),
+        "pools" => part_pools(c, thorough, only_chunk),
         "api" => part_api(c, only_chunk),
         _ => Tally::default(),
     }
